@@ -254,6 +254,31 @@ func runC13(c *Ctx) {
 		}
 	}
 
+	// ---- wager-owner: after the blinds the wager to match "equals the largest blind actually
+	// posted" because nothing but the chip mover (which raises it to the payer's wager) and the
+	// round reset (which zeroes it) ever stores it. A post-processing step that lifts it to the
+	// nominal big blind makes it differ from what was posted when the big blind is short
+	{
+		var bad []string
+		n := 0
+		for _, w := range p.Index().Writers("pokerface.Status.CurrentWager") {
+			n++
+			if w == mover {
+				continue
+			}
+			s := newSumm(p, 0)
+			paths, _ := s.Function(w)
+			for _, ps := range paths {
+				for _, e := range ps.storesTo("pokerface.Status.CurrentWager") {
+					if v, ok := e.Val.isConstInt(); !ok || v != 0 {
+						bad = append(bad, fnKey(w)+" sets the wager to match to "+e.Val.String()+" ("+e.Pos+")")
+					}
+				}
+			}
+		}
+		c.check(len(bad) == 0 && n >= 2, "wager-owner", "Status.CurrentWager", "-", "stored only by the chip mover and, as zero, by the round reset", "the wager to match is set by something other than a payment", uniq(bad, 2)...)
+	}
+
 	// ---- min-raise-init
 	if gb != nil {
 		s := newSumm(p, 0)
